@@ -4,10 +4,10 @@ PROP = dict(
     level="proof",
     lean_modules=['PopsModel.Props.C17', 'PopsModel.Props.C17Kern', 'PopsModel.Props.NonVacuous.Host', 'PopsModel.Props.NonVacuous.KernelsReal'],
     theorems=['Pops.C17_departure_rule', 'Pops.C17_leaving', 'Pops.C17_arrival', 'Pops.C17_two_phase', 'Pops.C17_outside_recorded', 'Pops.C17_movement_rows', 'Pops.C17_movement_once', 'Pops.C17_movement_amount', 'Pops.C17_overpopulation_kernel_scale', 'Pops.C17_overpopulation_kernel_rejects', 'Pops.C17_overpopulation_kernel_is_natural', 'Pops.C17_overpopulation_uniform_range'],
-    commands=['hp.pestsfrom', 'hp.peststo', 'hp.move', 'hp.overpop', 'hp.movement', 'kern.overpop'],
+    commands=['hp.pestsfrom', 'hp.peststo', 'hp.move', 'hp.overpop', 'hp.movement', 'kern.overpop', 'mm.overpop', 'mm.movement'],
     runs={
-        "quick": [('h_host', 'pool', 0, 1500), ('h_model', 'model', 0, 400), ('h_kern', 'overpop', 0, 1600)],
-        "thorough": [('h_host', 'pool', 0, 150000), ('h_model', 'model', 0, 20000), ('h_kern', 'overpop', 0, 60000)],
+        "quick": [('h_host', 'pool', 0, 1500), ('h_model', 'model', 0, 400), ('h_kern', 'overpop', 0, 1600), ('h_mmodel', 'multi', 0, 150), ('h_sim', 'sim', 0, 300)],
+        "thorough": [('h_host', 'pool', 0, 150000), ('h_model', 'model', 0, 20000), ('h_kern', 'overpop', 0, 60000), ('h_mmodel', 'multi', 0, 5000), ('h_sim', 'sim', 0, 20000)],
     },
     exhaustive={"quick": False, "thorough": False},
     rule="case (pool) = one random landscape (7 shapes incl. 1x1, 1xN, Nx1, rows != cols; SI/SEI, latency 0..3, 1..4 mortality cohorts, 20% empty cells) with 5-14 random operations (add/land a disperser with scripted uniform, deterministic generation, pests from/to, host move incl. same-cell, removal/pesticide treatment in both modes with coefficients k/64, pesticide end, survival rate, lethal temperature, mortality, latency step); case (model) = one random Model configuration (feature subsets, calendar with day/week/month steps, both entry points, injected kernel throwing dispersers inside / at the source / just outside / far outside) run for up to 40 steps with the state printed after every action; non-trivial = at least 3 different operation kinds on a landscape with a suitable cell (pool) / at least 3 steps (model); distinct = blake2b of the case's protocol lines",
